@@ -257,6 +257,17 @@ theorem idxOfE_map [DecidableEq α] [DecidableEq β] (x : α) (old : List α) (k
       simp only [h, h', if_false]
       exact ih _ (fun y hy => hinj y (List.mem_cons_of_mem _ hy))
 
+theorem checkLat_nat {v : View α} {v' : View β} (R : ViewRel f v v') (lat : Option LatSrc) :
+    checkLat v' lat = checkLat v lat := by
+  cases lat with
+  | none => rfl
+  | some l =>
+    cases l with
+    | fresh => rfl
+    | ofStru h' =>
+      simp only [checkLat, atoms_nat R]
+      cases v.atoms h' <;> rfl
+
 theorem planG_nat [DecidableEq α] [DecidableEq β] {v : View α} {v' : View β} (R : ViewRel f v v')
     (op : Op) (hag : SubAgree f v op) : ExRel f (planG v op) (planG v' op) := by
   cases op with
@@ -372,6 +383,15 @@ theorem planG_nat [DecidableEq α] [DecidableEq β] {v : View α} {v' : View β}
   | drop h =>
     simp only [planG, atoms_nat R]
     rcases h1 : v.atoms h with e | old <;> simp [ExRel, ActRel]
+  | ctor src lat =>
+    cases src with
+    | none =>
+      simp only [planG, checkLat_nat R]
+      rcases h1 : checkLat v lat with e | L <;> simp [ExRel, ActRel]
+    | some it =>
+      simp only [planG, iter_nat R, checkLat_nat R]
+      rcases h2 : v.iter it with e | ⟨xs, b⟩ <;> simp [ExRel]
+      rcases h1 : checkLat v lat with e | L <;> simp [ExRel, ActRel]
 
 end Natural
 
@@ -686,6 +706,19 @@ theorem planG_all [DecidableEq α] {v : View α} (hv : ViewAll P v) {op : Op} {a
     rcases h1 : v.atoms h with e | old <;> simp only [h1] at hp
     · cases hp
     · cases hp; simp [ActAll]
+  | ctor src lat =>
+    cases src with
+    | none =>
+      simp only [planG] at hp
+      rcases h1 : checkLat v lat with e | L <;> simp only [h1] at hp <;> cases hp
+      simp [ActAll]
+    | some it =>
+      simp only [planG] at hp
+      rcases h2 : v.iter it with e | ⟨xs, b⟩ <;> simp only [h2] at hp
+      · cases hp
+      · rcases h1 : checkLat v lat with e | L <;> simp only [h1] at hp <;> cases hp
+        simp only [ActAll, reduceCtorEq, false_implies, implies_true, and_true]
+        exact iter_all hv h2
 
 end Origin
 
@@ -2171,6 +2204,7 @@ def AutoSafe : Op → Prop
   | .extend _ it c => c = .yes ∨ (c = .dflt ∧ ∃ h', it = .stru h')
   | .setitem _ _ _ c => c = true
   | .setslice _ _ _ c => c = true
+  | .ctor src _ => src = none ∨ ∃ h', src = some (.stru h')
   | _ => True
 
 theorem safe_of_autoSafe {w : World} (hi : Inv w) {op : Op} (ha : AutoSafe op) : Safe w op := by
@@ -2428,6 +2462,20 @@ theorem safe_of_autoSafe {w : World} (hi : Inv w) {op : Op} (ha : AutoSafe op) :
     · simp [Safe, planG, h1]
     · simp only [Safe, planG, h1]
       trivial
+  | ctor src lat =>
+    simp only [AutoSafe] at ha
+    rcases ha with rfl | ⟨h', rfl⟩
+    · simp only [Safe, planG]
+      rcases checkLat w.view lat with e | L
+      · trivial
+      · exact safe_plan_noinc w _ rfl rfl
+    · simp only [Safe, planG, View.iter]
+      rcases h3 : w.view.atoms h' with e | l
+      · trivial
+      · simp only
+        rcases checkLat w.view lat with e | L
+        · trivial
+        · exact safe_plan_allTrue w _ rfl rfl
 
 instance (w : World) (op : Op) : Decidable (Safe w op) := by
   unfold Safe
